@@ -155,9 +155,10 @@ PROPS = {
         "assumptions": [],
     },
     "C06": {
-        "lean_modules": ["StimModel.Props.C06", "StimModel.Core.Fold", "StimModel.Props.Fourier"],
+        "lean_modules": ["StimModel.Props.C06", "StimModel.Core.Fold", "StimModel.Props.Fourier", "StimModel.Props.RefTree"],
         "areas": [
             {"area": "fold", "n": {"quick": 400, "thorough": 8000}, "replayable": True, "timeout": 1500},
+            {"area": "reftree", "n": {"quick": 800, "thorough": 20000}},
             {"area": "cdem", "shrink": True, "n": {"quick": 150, "thorough": 3000}, "replayable": True},
         ],
         "rule": "loop circuits from 6 body templates (rotating data, measure-reset with cross-iteration detectors, observables accumulating across iterations, delayed feedback, nested loops, "
@@ -167,7 +168,7 @@ PROPS = {
                 "QEC-like circuits of the cdem area; distinct = distinct circuit texts",
         "trusted_base": [],
         "partial": ["revtrack_shift_equivariant (the hypothesis of fold_sound for the concrete tracker) is not proved; the concrete implementations are compared with unrolling",
-                    "reftree_decompress is validated by correspondence"],
+                    "the tree operations (simplified, size, empty, try_factorize, operator[]) are modelled (Model/RefTree) and decompress_simplified is proved; that try_factorize keeps the sample and that the tortoise-hare construction builds a tree of the unrolled sample are validated by correspondence (areas reftree, fold)"],
         "assumptions": [],
     },
     "C08": {
@@ -353,6 +354,7 @@ _CLI_RULES = {
            "amplitudes canonicalised to directions w^j and judged exactly by the Lean amplitude model",
     "C20": "area xorvec: stim/mem/sparse_xor_vec.h (xor_merge_sort, xor_sorted_items with stack and heap temp buffers, operator^ / ^=, xor_item sequences, inplace_xor_sort on unsorted lists with repeats, "
            "is_subset_of_sorted / is_superset_of) on lists of 0..90 items with many common items against the Lean model Stim.XorVec (equality)",
+    "C06": "area reftree: random ReferenceSampleTree values (nesting <= 3, repetitions 0..5, empty prefixes, copied siblings) — simplified() structure, decompress_into, size, empty, operator[] (simplified trees), try_factorize against Model/RefTree (equality)",
     "C19": "area cli: `stim gen` (--code/--gen, 6 code/task pairs, noise flags, rounds up to 2^32+1): printed text parses to the generator's circuit, header names "
            "task/rounds/distance, small instances judged by `gencode check`",
 }
